@@ -54,7 +54,7 @@ def check_case(ctx, case):
         if not close(var, naive, rtol=1e-9, scale=naive) or not close(o.dvalue ** 2, naive, rtol=1e-9, scale=naive):
             probs.append(('violation', 'jack-variance', 'jackknife %r, S=0 error^2 %r, naive %r' % (var, o.dvalue ** 2, naive)))
         # import restores the observable, configuration list included
-        r = pe.import_jackknife(j, name, idl=[il])
+        r = pe.import_jackknife(j, name, idl=[il if len(x) % 2 else np.array(il)])
         if list(r.idl[name]) != list(il):
             probs.append(('violation', 'jack-import-idl', '%r vs %r' % (list(r.idl[name])[:6], list(il)[:6])))
         back = np.asarray(r.deltas[name]) + r.r_values[name]
@@ -112,9 +112,22 @@ def check_case(ctx, case):
         b2 = o.export_bootstrap(nb)
         bp = p.export_bootstrap(nb)
         bc = (p - 2 * o).export_bootstrap(nb)
+        # an export with a supplied table in between must not change what the default seeding gives afterwards
+        foreign = np.random.default_rng(case['seed'] + 99).integers(0, n, size=(nb, n))
+        o.export_bootstrap(nb, random_numbers=foreign)
         b3 = o.export_bootstrap(nb)
-        if not np.array_equal(b1, b2) or not np.array_equal(b1, b3):
-            probs.append(('violation', 'boot-seed-not-reproducible', 'repeated default-seeded exports differ'))
+        bp3 = p.export_bootstrap(nb)
+        if not np.array_equal(b1, b2) or not np.array_equal(b1, b3) or not np.array_equal(bp, bp3):
+            probs.append(('violation', 'boot-seed-not-reproducible', 'repeated default-seeded exports differ (an export with a supplied table in between)'))
+        # the documented recipe: table seeded by the md5 hash of the chain name
+        import hashlib
+        seed = int(hashlib.md5(name.encode()).hexdigest(), 16) & 0xFFFFFFFF
+        tab = np.random.default_rng(seed).integers(0, n, size=(nb, n))
+        ref = np.array([float(sum(fx[c] for c in row) / n) for row in tab])
+        for bb, tag in ((b1, 'first'), (b3, 'after a supplied table')):
+            if np.max(np.abs(bb[1:] - ref)) > 1e-11 * scale:
+                probs.append(('violation', 'boot-seed-not-the-name-seeded-table', '%s default export deviates from the md5(name)-seeded resampling by %r' % (tag, float(np.max(np.abs(bb[1:] - ref))))))
+                break
         if np.max(np.abs(bc - (bp - 2 * b1))) > 1e-10 * scale:
             probs.append(('violation', 'boot-seed-not-chain-consistent', 'boots(p - 2o) != boots(p) - 2 boots(o): max dev %r' % float(np.max(np.abs(bc - (bp - 2 * b1))))))
     return probs
@@ -124,7 +137,7 @@ def gen_case(ctx):
     rng = ctx.rng
     nprng = np.random.default_rng(rng.getrandbits(32))
     n = rng.choice([5, 6, 7, 9, 12, 20, 33, 64, 100, 300]) if rng.random() < 0.5 else rng.randint(5, 60)
-    il = gen_idl(rng, n, rng.choice(['contig', 'contig', 'strided', 'gapped', 'irregular']))
+    il = gen_idl(rng, n, rng.choice(['contig', 'contig', 'strided', 'gapped', 'irregular', 'deceptive']))
     x = gen_data(rng, nprng, len(il), rng.choice(['white', 'ar09', 'int', 'const', 'alt']))
     kind = rng.choice(['jack', 'jack', 'boot', 'boot', 'seed'])
     case = {'kind': kind, 'name': rng.choice(['A|r1', 'ens', 'B|r2']), 'idl': [int(c) for c in il], 'x': [float(v).hex() for v in x]}
